@@ -277,6 +277,10 @@ fn check_all(p: Prop, w: &mut World, case: &HistCase, step: usize, _st: &mut Sta
     Ok(())
 }
 
+pub fn excluded_pub(w: &mut World, o: &Op, known_open: &dyn Fn(&str) -> bool) -> Option<&'static str> {
+    excluded_by_known_finding(Prop::C03, w, o, known_open)
+}
+
 /// detector for KF-C09-1: two sibling elements with the same element name and item name, one of which
 /// is restricted to exactly one file (the one just merged)
 fn merge_duplicate(w: &mut World, mi: usize) -> Option<String> {
